@@ -110,6 +110,10 @@ SCRIPTS = {
     # a retention update whose document save fails, then a successful one: the dropped checkpoint's WAL must go
     "retain-save-fails": [_w(1, 1), _s("Checkpoint"), _s("SaveWal", id=1), _s("SaveDoc", id=1), _w(2, 1), _s("Checkpoint"), _s("SaveWal", id=2),
                           _s("SaveDoc", id=2), _s("RetainFail", ids="{2}"), _s("GcRun"), _s("Retain", ids="{2}"), _s("GcRun")],
+    # a retention update that lags two checkpoints behind: everything newer than the retained checkpoint stays
+    "retain-lagging": [_w(1, 1), _s("Checkpoint"), _s("SaveWal", id=1), _s("SaveDoc", id=1), _w(2, 1), _s("Checkpoint"), _s("SaveWal", id=2),
+                       _s("SaveDoc", id=2), _w(3, 1), _s("Checkpoint"), _s("SaveWal", id=3), _s("SaveDoc", id=3), _s("Retain", ids="{1}"), _s("GcRun"),
+                       _w(1, 2), _s("Retain", ids="{2}"), _s("GcRun")],
     # retention drops checkpoint 1: its WAL goes, checkpoint 2 keeps restoring
     "retain-newest": [_w(1, 1), _s("Checkpoint"), _s("SaveWal", id=1), _s("SaveDoc", id=1), _w(2, 1), _w(3, 1), _w(1, 2), _s("FlushStart"),
                       _s("FlushSwap"), _s("Checkpoint"), _s("SaveWal", id=2), _s("SaveDoc", id=2), _s("Retain", ids="{2}"), _s("GcRun"),
